@@ -522,6 +522,8 @@ func runCancelProp(col *Collector, focus, tier string, seed int64) {
 		"during a before-hook, during the first or second command, twice in a row, before any run, via Scheduler.Cancel and via a stage condition that cannot be evaluated; " +
 		"then a task run after the cancellation. non-trivial = at least one task in flight or waiting; distinct = distinct scenarios"
 	scs := genCancelScenarios(tier, rng)
+	var rmu sync.Mutex
+	var retry []retryJob
 	parallel(len(scs), 12, func(i int) {
 		sc := scs[i]
 		obs, exit, stderr, to := runCancelScenario(sc)
@@ -544,9 +546,38 @@ func runCancelProp(col *Collector, focus, tier string, seed int64) {
 				b(obs.LateRunErr && !obs.LateRunRan), len(obs.StartedAfter), b(!twice || obs.SecondCancelMs >= 0))
 		}
 		fail, sig := cancelVerdict(sc, obs, exit, stderr, to)
+		if fail != "" && timingSigs[sig] {
+			// a bound on wall-clock time was exceeded: on a machine that is busy enough that can happen to correct
+			// code. The scenario is repeated on its own, after the others; a deadlock shows again, a slow start does not
+			rmu.Lock()
+			retry = append(retry, retryJob{sc, cs, fail, sig})
+			rmu.Unlock()
+			return
+		}
 		if fail != "" {
 			cs.Fail, cs.Sig = fail, sig
 		}
 		col.Add(cs)
 	})
+	for _, j := range retry {
+		obs, exit, stderr, to := runCancelScenario(j.sc)
+		fail, sig := cancelVerdict(j.sc, obs, exit, stderr, to)
+		cs := j.cs
+		if fail != "" {
+			cs.Fail, cs.Sig = fmt.Sprintf("%s (twice: the first attempt ended with: %s)", fail, j.fail), sig
+		} else {
+			cs.Tags = append(cs.Tags, "passed-on-second-attempt")
+			col.Note("C12 scenario %s exceeded a time bound once (%s) and passed when repeated alone", j.sc.String(), j.sig)
+		}
+		col.Add(cs)
+	}
 }
+
+type retryJob struct {
+	sc   cancelScenario
+	cs   Case
+	fail string
+	sig  string
+}
+
+var timingSigs = map[string]bool{"c12-hang": true, "c12-cancel-blocks": true, "c12-run-blocks": true, "c12-cancel-twice": true, "c12-child-exit": true, "c12-process-left": true}
